@@ -87,14 +87,17 @@ def savedNames (v : Ver) (c : Carriers) : Option (List Name) :=
   | .v2 => if c.post = 20 then some c.order else none
 
 /-- MEASURED behaviour of fontTools (`cffLib.CharsetCompiler.__init__`: `assert charset[0] == ".notdef"`), not
-    ufo2ft logic, and a finding: a 'CFF ' table whose first glyph is not called '.notdef' cannot be written.
-    `rename_glyphs` does not exempt '.notdef', so a `public.postscriptNames` entry for it makes every CFF 1
-    build unsaveable while the CFF 2 builds of the same sources are fine. -/
+    ufo2ft logic: a 'CFF ' table whose first glyph is not called '.notdef' cannot be written.
+    `_build_production_names` now exempts '.notdef' (and reserves its name), so for every font whose glyph order
+    starts with '.notdef' - every font ufo2ft compiles - this holds after renaming (`C12_cff1_writable`).  Before that
+    repair a `public.postscriptNames` entry for '.notdef' made every CFF 1 build unsaveable while the CFF 2 builds
+    of the same sources were fine (finding C12-cff1-notdef-renamed, fixed). -/
 def cff1Writable (names : List Name) : Bool := names.head? == some ['.', 'n', 'o', 't', 'd', 'e', 'f']
 
 /-- `modelFont` for sources built with production-name switches `s`: the prediction is made from the build
-    WITHOUT renaming (`base`), glyph identity being untouched by renaming (`C12_names_content`), except that a
-    CFF 1 font whose first glyph lost the name '.notdef' fails when it is saved -/
+    WITHOUT renaming (`base`), glyph identity being untouched by renaming (`C12_names_content`).  fontTools'
+    requirement on the charset stays in the model (a CFF 1 font whose first glyph is not '.notdef' fails when it is
+    saved); `C12_cff1_writable` shows the branch is dead for glyph orders that start with '.notdef'. -/
 def modelFontNamed (s : Switches) (i : Input) (base : Out) (c : Combo) : Except String Out :=
   match modelFont (i.order.map String.ofList) base c with
   | .error e => .error e
